@@ -930,6 +930,62 @@ fn eval_bcf_mismatch(ctx: &Ctx, case: &BcfMismatchCase) -> Verdict {
 }
 
 // ---------------------------------------------------------------------------------------------
+// hostile dictionary indices in a BCF header
+
+#[derive(Clone, Debug, Serialize, Deserialize)]
+pub struct BcfIdxCase {
+    /// which header line gets the value: 0 = FORMAT GT, 1 = first contig, 2 = INFO DP, 3 = FILTER q10
+    pub line: u8,
+    pub idx: String,
+    pub bgzf: bool,
+}
+
+fn eval_bcf_idx(ctx: &Ctx, case: &BcfIdxCase) -> Verdict {
+    let dir = ctx.worker_dir(crate::engine::worker_id());
+    // a size for which the encoder writes explicit IDX attributes and the narrow dictionary
+    let cs = (2..40)
+        .map(|n| CallSet {
+            contigs: vec!["ctgI7".into(), "ctgJ8".into()],
+            samples: (0..3).map(|i| format!("s{i}")).collect(),
+            records: (0..n as u64).map(|k| crate::gen::callset::Record { pos: 3 + k, ..crate::props::c10::fresh_record(3) }).collect(),
+        })
+        .find(|cs| !crate::gen::bcf::implicit_dictionary(cs) && !crate::gen::bcf::wide_dictionary(cs))
+        .expect("a call set with explicit IDX attributes");
+    let text = crate::gen::bcf::header_text(&cs);
+    let needle = ["ID=GT,", "##contig=<ID=ctgI7,", "##INFO=<ID=DP,", "##FILTER=<ID=q10,"][case.line as usize % 4];
+    let mut out = String::new();
+    for line in text.lines() {
+        if line.contains(needle) {
+            let cut = line.rfind(",IDX=").expect("explicit IDX");
+            out.push_str(&format!("{},IDX={}>", &line[..cut], case.idx));
+        } else {
+            out.push_str(line);
+        }
+        out.push('\n');
+    }
+    let mut bytes = b"BCF\x02\x02".to_vec();
+    bytes.extend(((out.len() + 1) as u32).to_le_bytes());
+    bytes.extend(out.as_bytes());
+    bytes.push(0);
+    for r in &cs.records {
+        bytes.extend(crate::gen::bcf::record_bytes(&cs, r));
+    }
+    if case.bgzf {
+        bytes = crate::gen::bgzf::compress(&bytes, &Layout::plain()).0;
+    }
+    std::fs::write(dir.join("idx.bcf"), &bytes).expect("write");
+    let mut pass = Pass::new();
+    for c in [vec!["create"], vec!["create", "-s", "s0,s1"], vec!["create", "--strict", "-p", "1"]] {
+        let mut argv: Vec<String> = c.iter().map(|s| s.to_string()).collect();
+        argv.push("idx.bcf".into());
+        let run = cli::sfs(ctx, &argv, Input::Null, &dir);
+        let ex = judge(ctx, &run, &format!("`sfs {}` on a BCF whose header line `{needle}..` carries IDX={}", argv.join(" "), case.idx))?;
+        finish(&mut pass, ex, &run);
+    }
+    Ok(pass)
+}
+
+// ---------------------------------------------------------------------------------------------
 // raw saved inputs (regressions found by surveys, thorough runs and fuzz campaigns)
 
 #[derive(Clone, Debug, Serialize, Deserialize)]
@@ -1019,6 +1075,24 @@ pub fn check(ctx: &Ctx) -> Check {
                 v
             }),
             eval: Box::new(eval_size),
+        }),
+        Box::new(EnumPart {
+            name: "hostile-bcf-dictionary-index",
+            rule: "BCF headers (raw and BGZF) whose IDX attribute on the FORMAT GT / contig / INFO / FILTER line is huge, negative, non-numeric, duplicated or sparse (2^64-1, 2^64, 2^32, 70000, -1, abc, empty, an index already taken), through 3 create command lines",
+            exhaustive: true,
+            cases: Box::new(|_| {
+                let mut v = Vec::new();
+                for line in 0..4u8 {
+                    // (2^63 is left out: noodles resizes its table to IDX + 1 entries, which there is a capacity
+                    // overflow inside std -- the same root cause as the open finding for 2^64-1, but a
+                    // signature too generic to put on an allow-list)
+                    for idx in ["18446744073709551615", "18446744073709551616", "4294967296", "70000", "-1", "abc", "", "0", "2"] {
+                        v.push(BcfIdxCase { line, idx: idx.to_string(), bgzf: (line as usize + idx.len()) % 2 == 0 });
+                    }
+                }
+                v
+            }),
+            eval: Box::new(eval_bcf_idx),
         }),
         Box::new(EnumPart {
             name: "many-populations",
